@@ -143,11 +143,11 @@ Section Oop.
   (* gd_flush / gd_close *)
   Definition oop_flush (st : oop) : oop := oop_finish st.
 
-  (* a read of n samples from sample 0: _GD_InitRawIO(READ) finishes the pending
+  (* a read of n samples from sample p: _GD_InitRawIO(READ) finishes the pending
      write and moves it into place first (encoding.c, since fix 2ffd53f), as
      dirfile-encoding(5) documents *)
-  Definition oop_get (st : oop) (n : nat) : oop * list sample :=
-    let st' := oop_finish st in (st', firstn n (o_old st')).
+  Definition oop_get (st : oop) (p n : nat) : oop * list sample :=
+    let st' := oop_finish st in (st', firstn n (skipn p (o_old st'))).
 
   Definition oop_inv (st : oop) : Prop :=
     match o_tmp st with
